@@ -143,3 +143,22 @@ Proof.
       rewrite Z.sub_0_r. apply firstn_all2. lia.
   - cbn [map concat]. rewrite app_nil_r. apply slice_full.
 Qed.
+
+(* the buffered writer produces exactly write_file's bytes, whatever the buffer size and the prior content *)
+Theorem write_buffered_file c recs cap disk0 st :
+  write_buffered c recs cap disk0 = OK st ->
+  write_file c recs = OK (o_disk st) /\ o_total st = zlen (o_disk st).
+Proof.
+  unfold write_buffered, write_file. destruct (check_vrl (sul_vrl c)); cbn [negb]; [|discriminate].
+  destruct (sul_bytes c) as [s|]; cbn [bind]; [|discriminate].
+  destruct (vrs_of_recs (sul_vrl c) recs) as [vs|]; cbn [bind]; [|discriminate].
+  intros H. inv H. destruct (run_output_correct cap disk0 s vs) as (-> & -> & _). split; reflexivity.
+Qed.
+
+Theorem write_buffered_total c recs cap disk0 bs :
+  write_file c recs = OK bs -> exists st, write_buffered c recs cap disk0 = OK st.
+Proof.
+  unfold write_buffered, write_file. destruct (check_vrl (sul_vrl c)); cbn [negb]; [|discriminate].
+  destruct (sul_bytes c) as [s|]; cbn [bind]; [|discriminate].
+  destruct (vrs_of_recs (sul_vrl c) recs) as [vs|]; cbn [bind]; [|discriminate]. eauto.
+Qed.
